@@ -52,6 +52,10 @@ PROPS = {
                           "RuleOrder: one ANP or the BANP with two rules (every pair of actions x 2 peers x {all ports, UDP n + TCP m symbolic}) — the first matching rule decides",
                           "more ANPs/rules per ANP; richer subjects; equal priorities", models=40),
                  thorough=ev("^ZZ_C02_", "the quick bound again (the larger menus do not finish in 15 minutes: DESIGN 10.8) with 300 natively re-run sampled paths", "as quick", models=300, menus=0)),
+            dict(pkg=K8S, harness="harness/k8s", shared="harness/shared",
+                 quick=ev("^ZZ_LEAF_AdminRulePorts$", "leaf: the port part of one ANP/BANP rule: nil, empty or 1-2 entries of 9 kinds (portNumber on TCP/defaulted/UDP, portRange on TCP/UDP/defaulted, named ports http, metrics, an undeclared name) against a pod "
+                          "declaring http on ''/TCP/UDP and optionally metrics on UDP (symbolic numbers); the admin ruleConnections (list) and anpPortContains (eval, mixed protocol spellings, port as decimal text) vs the oracle at a symbolic point",
+                          "more than 2 entries", models=40)),
         ],
     ),
     "C03": dict(
